@@ -362,6 +362,47 @@ def run_weights(ctx):
         if list(got.shape) != vshape or not bool((got == want).all()):
             ctx.fail('json_to_weights does not denote the tensor the specification describes', dict(spec=spec), got.tolist(), want.tolist(),
                      tags=['weights-spec'])
+        # the model `Jw.fromSpec` of json_to_weights / json_to_axis: representation of the resulting PatternedTensor and its dense tensor
+        if not any(x == 0 for x in sizes):
+            from .common import enc_ext, enc_list
+            def es(r):
+                if isinstance(r, list): return 'X ' + enc_list(r, es)
+                if isinstance(r, dict): return f"S {r['before']} {es(r['term'])} {r['after']}"
+                return f'R {r}'
+            pt = formats.json_to_weights(json.loads(json.dumps(spec)))
+            ids2 = {}
+            from fggs.indices import PhysicalAxis as _P, ProductAxis as _X
+            def ea(e):
+                if isinstance(e, _P): return f'P {ids2.setdefault(id(e), len(ids2))} {e._numel}'
+                if isinstance(e, _X): return 'X ' + enc_list(e.factors, ea)
+                return f'S {e.before} {ea(e.term)} {e.after}'
+            want_rep = (f'{enc_list(pt.physical.contiguous().reshape(-1).tolist() if pt.physical.numel() else [], enc_ext)} '
+                        f'{enc_list(pt.paxes, lambda k_: "P " + str(ids2.setdefault(id(k_), len(ids2))) + " " + str(k_._numel))} {enc_list(pt.vaxes, ea)} {enc_ext(float(pt.default))}')
+            ctx.extra.setdefault('_w_reqs', []).append(
+                f'C14.weights {enc_list(psize)} {enc_list(phys.reshape(-1).tolist(), enc_ext)} {enc_list(expand)} some {enc_list(vaxes, es)} {enc_ext(default)} 3')
+            ctx.extra.setdefault('_w_meta', []).append((dict(spec=spec), want_rep, vshape, got.reshape(-1).tolist()))
+    from .unifygen import canon
+    from .common import dec_ext
+    for (case, want_rep, vshape, dense), rep in zip(ctx.extra.pop('_w_meta', []), ctx.driver.ask_many(ctx.extra.pop('_w_reqs', []))):
+        if isinstance(rep, Exception):
+            raise rep
+        ctx.evaluations += 1
+        if not rep.startswith('ok'):
+            ctx.disagree('Jw.fromSpec: the model raises where json_to_weights returns a tensor', case, 'ok', rep[:80]); continue
+        toks = rep.split()[1:]
+        i = 0; L = int(toks[i]); phys_ = toks[i + 1:i + 1 + L]; i += 1 + L
+        P = int(toks[i]); pax = toks[i + 1:i + 1 + 2 * P]; i += 1 + 2 * P
+        # vaxes list + default, then wf, vshape list, dense list
+        wl = want_rep.split()
+        head = [str(L)] + phys_ + [str(P)] + sum((['P', pax[2 * j_], pax[2 * j_ + 1]] for j_ in range(P)), [])
+        body = toks[i:i + (len(wl) - len(head))]
+        rest = toks[i + (len(wl) - len(head)):]
+        if canon(head + body) != canon(wl) or rest[0] != 'T':
+            ctx.disagree('Jw.fromSpec: representation of json_to_weights(spec)', case, want_rep, ' '.join(head + body)); continue
+        nv = int(rest[1]); mshape = [int(x) for x in rest[2:2 + nv]]
+        nd_ = int(rest[2 + nv]); mdense = [dec_ext(x) for x in rest[3 + nv:3 + nv + nd_]]
+        if mshape != vshape or len(mdense) != len(dense) or not all(a == b or (a != a and b != b) for a, b in zip(mdense, dense)):
+            ctx.disagree('Jw.fromSpec: dense tensor of json_to_weights(spec)', case, dense, mdense)
 
 
 def replay(ctx, rep):
